@@ -409,12 +409,25 @@ func (s *socket) MaybeUpgrade(transport transports.Transport) {
 			socket_log.Debug("got upgrade packet - upgrading")
 			cleanup()
 			vhook.Yield("socket.upgrade.switching")
+			// the attempt's own listener for the session's close event is gone with
+			// cleanup: a session that closes from here on (on another goroutine) does
+			// not take the candidate along by itself
+			if s.ReadyState() == "closed" {
+				transport.Close()
+				return
+			}
 			s.Transport().Discard()
 
 			s.upgraded.Store(true)
 
 			s.clearTransport()
 			s.setTransport(transport)
+			if s.ReadyState() == "closed" {
+				// closed while the transports were being switched: what closed it has
+				// dealt with the old transport only
+				transport.Close()
+				return
+			}
 			s.Emit("upgrade", transport)
 			s.flush()
 			if s.ReadyState() == "closing" {
